@@ -786,7 +786,51 @@ def rule_reg_record(rm):
                 obs.append(bad('REG-RECORD', 'REG-RECORD|%s|%s+%s' % (b.name, g1, g2),
                                '%s reads the record registered under one name in two separate lock acquisitions (%s at %s, %s at %s): a re-registration in between makes it act on a combination that was never registered'
                                % (b.name.split('::')[-1], g1, c1.where(), g2, c2.where()), c1.where(), body=b.name, bb=c1.bb))
+    # check-then-act: a membership / record read of a name and, depending on its outcome, a write of the same name in a
+    # second acquisition (`if self.exist(&name) { return; } self.register(&name, ..)`): a registration made by another
+    # thread in between is overwritten (or the check is stale) — the decision and the write must share one acquisition
+    from r_panic import bool_source, edge_dominates, switch_edges
+    for b in prog.bodies:
+        if b.derived or b.id in rm.reg_lockers or b.is_closure:
+            continue
+        rds = []
+        for c in b.live_calls:
+            if c.ruid in keyed and keyed[c.ruid] - 1 < len(c.args):
+                o = trace_operand(b, c.args[keyed[c.ruid] - 1], through_calls=THROUGH)
+                rds.append((c, {(x.kind, x.key()[1], x.proj) for x in o}))
+        wrs = [c for c in b.live_calls if c.ruid in rm.family and len(c.args) >= 2]
+        for c1, k1 in rds:
+            for c2 in wrs:
+                if c2.bb == c1.bb or c2.bb not in b.reachable_after(c1.bb):
+                    continue
+                k2 = {(x.kind, x.key()[1], x.proj) for x in trace_operand(b, c2.args[1], through_calls=THROUGH)}
+                if not k1 or k1 != k2 or not (statics(c1.ruid) & (r_parse._statics_reached(prog, c2.ruid) & reg_statics or {'recv:' + re.sub(r"^&(mut )?", '', prog.by_id[c2.ruid].locals[1]['ty'])})):
+                    continue
+                # the write is control-dependent on the outcome of the read
+                dep = False
+                for sb in sorted(b.live_blocks):
+                    t = b.blocks[sb]['term']
+                    if t['k'] != 'switch':
+                        continue
+                    src = bool_source(b, t['discr'])
+                    so = None
+                    if src is not None and src[0].bb == c1.bb:
+                        so = True
+                    else:
+                        do = single_origin(trace_operand(b, t['discr'], through_calls=set()))
+                        if do is not None and do.kind == 'discr':
+                            oo = single_origin(trace_local(b, do.data[2]['pl']['l'], (), through_calls=set(TRANSPARENT_CALLS)))
+                            if oo is not None and oo.kind == 'callres' and oo.data.bb == c1.bb:
+                                so = True
+                    if so and any(edge_dominates(b, sb, tb, c2.bb) for v, tb in switch_edges(b, sb)) and not all(edge_dominates(b, sb, tb, c2.bb) for v, tb in switch_edges(b, sb) if b.blocks[tb]['term']['k'] != 'unreachable'):
+                        dep = True
+                if dep:
+                    n += 1
+                    g1, g2 = prog.by_id[c1.ruid].name.split('::')[-1], prog.by_id[c2.ruid].name.split('::')[-1]
+                    obs.append(bad('REG-RECORD', 'REG-RECORD|%s|check-then-act:%s+%s' % (b.name, g1, g2),
+                                   '%s decides on %s (%s) and then writes the same name with %s (%s) in a second lock acquisition: a registration made in between by another thread is lost / the check is stale'
+                                   % (b.name.split('::')[-1], g1, c1.where(), g2, c2.where()), c1.where(), body=b.name, bb=c1.bb))
     if n == 0:
-        obs.append(ok('REG-RECORD', 'REG-RECORD|none', 'no body reads two parts of one registry record in separate acquisitions (%d keyed readers)' % len(keyed)))
+        obs.append(ok('REG-RECORD', 'REG-RECORD|none', 'no body reads two parts of one registry record in separate acquisitions, or checks a name and then writes it in a second one (%d keyed readers)' % len(keyed)))
     obs.append(floor('REG-RECORD', 'keyed-readers', len(keyed), 4, 'lookups by name into the four registries'))
     return obs
